@@ -36,8 +36,8 @@ def build_roots():
         add('r_seg_projected_%d' % d, 'pub fn r_seg_projected_%d(s: %s, p: %s) -> %s { s.projected_point(p) }' % (d, LS, VT, VT), kind='seg_proj', d=d)
         add('r_seg_distance_%d' % d, 'pub fn r_seg_distance_%d(s: %s, p: %s) -> f32 { s.distance_to_point(p) }' % (d, LS, VT), kind='seg_dist', d=d)
         add('r_seg_conv_%d' % d, 'pub fn r_seg_conv_%d(a: %s, b: %s) -> (%s, core::ops::Range<%s>, LineSegment%d<i64>) { (LineSegment%d::from(a..b), LineSegment%d::from(a..b).into_range(), LineSegment%d::from(a..b).as_()) }' % (d, VT, VT, LS, VT, d, d, d, d), kind='seg_conv', d=d)
-    add('r_ray_tri', 'pub fn r_ray_tri(r: &Ray<f32>, t: [Vec3<f32>; 3]) -> Option<f32> { r.triangle_intersection(t) }', kind='ray', d=3, max_paths=64)
-    add('r_ray_tri_f64', 'pub fn r_ray_tri_f64(r: &Ray<f64>, t: [Vec3<f64>; 3]) -> Option<f64> { r.triangle_intersection(t) }', kind='ray', d=3, max_paths=64, ty='f64')
+    add('r_ray_tri', 'pub fn r_ray_tri(r: &Ray<f32>, t: [Vec3<f32>; 3]) -> Option<f32> { r.triangle_intersection(t) }', kind='ray', d=3, max_paths=400)
+    add('r_ray_tri_f64', 'pub fn r_ray_tri_f64(r: &Ray<f64>, t: [Vec3<f64>; 3]) -> Option<f64> { r.triangle_intersection(t) }', kind='ray', d=3, max_paths=400, ty='f64')
     add('r_ray_new', 'pub fn r_ray_new(o: Vec3<f32>, d: Vec3<f32>) -> Ray<f32> { Ray::new(o, d) }', kind='ray_new', d=3)
     return roots, meta
 
